@@ -615,7 +615,12 @@ func rpAnalyse(root *pkgSrc, fd *ast.FuncDecl, file string) rpRecord {
 			// if err := …; err != nil { …; return …err… }
 			if as, ok := own.Init.(*ast.AssignStmt); ok && len(as.Lhs) == 1 && as.Tok == token.DEFINE {
 				if e, ok := as.Lhs[0].(*ast.Ident); ok && rpSquash(root.text(own.Cond)) == e.Name+"!=nil" && len(own.Body.List) >= 1 {
-					if ret, ok := own.Body.List[len(own.Body.List)-1].(*ast.ReturnStmt); ok && len(ret.Results) >= 1 {
+					ret, ok := own.Body.List[len(own.Body.List)-1].(*ast.ReturnStmt)
+					if ok && len(ret.Results) == 0 && (fd.Type.Results == nil || len(fd.Type.Results.List) == 0) {
+						// a function without results (the answer senders): nobody to return the error to, a bare
+						// return before the send is all that can be asked
+						r.errRet = true
+					} else if ok && len(ret.Results) >= 1 {
 						last := ret.Results[len(ret.Results)-1]
 						uses := false
 						ast.Inspect(last, func(n ast.Node) bool {
@@ -630,6 +635,9 @@ func rpAnalyse(root *pkgSrc, fd *ast.FuncDecl, file string) rpRecord {
 			}
 		}
 		if argsOK {
+			if a0 := rpSquash(root.text(c.Args[0])); strings.Contains(a0, "context.Background()") || strings.Contains(a0, "context.TODO()") {
+				r.ctx = "background"
+			}
 			if id, ok := c.Args[0].(*ast.Ident); ok {
 				switch {
 				case params[id.Name] && !rpAssigned(fd, id.Name):
